@@ -466,8 +466,11 @@ class ConfigNode(metaclass=ConfigNodeMeta):
             self._default_safe = notnone_or(self._default_safe, True) and other._default_safe
         self._metadata = { **other._metadata, **self._metadata }
         if allow_promotions:
-            return self._maybe_promote(other)
-        return self
+            ret = self._maybe_promote(other)
+        else:
+            ret = self
+        ret._propagate_implicit_values() # "self" may have just become unsafe
+        return ret
 
     def _maybe_promote(self, other):
         ''' Possibly promote "other" to be returned rather than "self" if its type is preferred.
